@@ -87,6 +87,11 @@ def run(ctx):
         if dtype != "int16":
             # float rasters whose declared nodata is NaN itself (the customary encoding of float rasters): NaN pixels are the missing ones
             acc.append(dict(acc[-1], nodata=None, nodata_nan=True))
+            # a fill value that binary32 cannot hold exactly (1e20, the customary _FillValue of model output): the raster's cells carry
+            # float32(1e20), the attribute the double 1e20 - they are the same marker
+            base = acc[-2]
+            pl2 = [[[(1e20 if (v is not None and rng.random() < 0.15) else v) for v in row] for row in t] for t in base["pix"]]
+            acc.append(dict(base, pix=pl2, nodata=1e20))
     res, log = core.run_impl("c16_impl.py", dict(kernel=kernel_all, big=big, acc=acc), timeout=3000)
     if res is None:
         ctx.violation("implementation run failed", dict(kind="impl-crash", log=log[-3000:]), found_input=False)
